@@ -741,8 +741,6 @@ val next_word_pos :
 
 val char_hits : n -> str -> nat -> nat list
 
-val last_char_len : str -> nat option
-
 val search_char_pos :
   (str -> str list) -> lb -> char_search -> nat -> nat option res
 
